@@ -184,6 +184,16 @@ Proof.
   destruct t as [|t]; simpl; [reflexivity|]. rewrite He. simpl. apply IH. lia.
 Qed.
 
+Theorem delay_always_enabled_both_proof {V : Type} (xv : V) (rs : list V) e (d : stream V) :
+  (forall t, e t = B1) ->
+  forall t, (t < length rs -> delay xv rs e d t = nth t rs xv) /\
+            (length rs <= t -> delay xv rs e d t = d (t - length rs)).
+Proof.
+  intros He t. split.
+  - exact (delay_always_enabled_fill_proof xv rs e d He t).
+  - exact (delay_always_enabled_proof xv rs e d He t).
+Qed.
+
 (* an UNBALANCED spawner (one input delayed by one register less) makes an operation combine
    values of different cycles *)
 Theorem unbalanced_delay_refuted_proof :
